@@ -195,7 +195,7 @@ func randDIDProof(r *hx.Rng, absBase string, unknown bool) *J {
 		}
 	}
 
-	if r.Intn(4) != 0 {
+	if r.Intn(12) != 0 { // required by the schema: without it the document is refused
 		frag := fmt.Sprintf("#k%d", 1+r.Intn(3))
 		p.O = append(p.O, kv("creator", str([]string{frag, didID + frag, absBase + frag, "did:ex:other" + frag}[r.Intn(4)])))
 	}
